@@ -27,7 +27,7 @@ EXTENDS Integers, Sequences, FiniteSets, TLC, Json
 
 CONSTANTS MaxRounds,        \* losses of an established connection per behaviour
           MaxAttempts,      \* failing attempts per round
-          Outcomes,         \* failing attempt outcomes the server may impose: "refuse" "reset" "transient" "auth" "authtext"
+          Outcomes,         \* failing attempt outcomes the server may impose: "refuse" "reset" "transient" "auth" "authtext" "tlsalert"
                             \* (auth / authtext: <failure/> without / with a <text/> child: rejected credentials)
           Drops,            \* "abrupt" "graceful"
           SM,
@@ -95,7 +95,7 @@ AttemptFails(o) == /\ loops > 0 /\ phase = "lost" /\ attempts < MaxAttempts
                    /\ attempts' = attempts + 1
                    /\ conns' = IF o = "refuse" THEN conns ELSE conns + 1
                    /\ hist' = [hist EXCEPT ![round].attempts = Append(@, o)]
-                   /\ LET perm == o \in {"auth", "authtext"} \/ (o = "refuse" /\ DialErrorPermanent) IN
+                   /\ LET perm == o \in {"auth", "authtext", "tlsalert"} \/ (o = "refuse" /\ DialErrorPermanent) IN   \* tlsalert: the server aborts the TLS handshake with an alert
                       /\ loops' = IF perm THEN loops - 1 ELSE loops
                       /\ phase' = IF perm /\ loops = 1 THEN "failed" ELSE phase
                    \* a failed negotiation leaves a teardown reader behind; in the code as found it reports a disconnection
@@ -159,7 +159,7 @@ C13_AtMostOneLiveSession == live <= 1
 C13_PermanentEndsLoop == phase = "failed" => loops = 0
 \* ... and only a permanent error does: a refused or reset connection or a torn-down negotiation is retried
 C13_OnlyPermanentErrorsEndLoop == phase = "failed" =>
-      LET a == hist[round].attempts IN a # <<>> /\ a[Len(a)] \in {"auth", "authtext"}
+      LET a == hist[round].attempts IN a # <<>> /\ a[Len(a)] \in {"auth", "authtext", "tlsalert"}
 C13_StopReturnsRun == phase = "stopped" => runReturned
 C13_NoPanic == ~panic
 \* the keepalive of a session ends with it: none is left when the next session is up and settled
